@@ -115,6 +115,38 @@ def stub_params(node):
     return out
 
 
+def mirror_problems(tree, mod, qs, expected):
+    """Compare the parsed stub of one module with the traced functions of that module (placement, decorators, async, parameter lists, receiver)."""
+    got = stub_functions(tree)
+    problems = []
+    if sorted(got) != sorted(qs):
+        problems.append("functions in stub %s != traced %s" % (sorted(got), sorted(qs)))
+    for q in qs:
+        nodes = got.get(q, [])
+        if len(nodes) != 1:
+            problems.append("%s appears %d times" % (q, len(nodes)))
+            continue
+        node = nodes[0]
+        kind, is_async = expected[q]
+        decos = sorted(ast.unparse(d) for d in node.decorator_list)
+        want_deco = {"class": ["classmethod"], "static": ["staticmethod"], "property": ["property"]}.get(kind, [])
+        if decos != want_deco:
+            problems.append("%s decorators %s != %s" % (q, decos, want_deco))
+        if isinstance(node, ast.AsyncFunctionDef) != is_async:
+            problems.append("%s async mismatch" % q)
+        obj = mod
+        for part in q.split("."):
+            obj = inspect.getattr_static(obj, part)
+        fn = obj.__func__ if isinstance(obj, (classmethod, staticmethod)) else (obj.fget if isinstance(obj, property) else obj)
+        real = [(p.name, p.kind, p.default is not P.empty) for p in inspect.signature(fn).parameters.values()]
+        sp = stub_params(node)
+        if [(n, k, d) for n, k, d, _ in sp] != real:
+            problems.append("%s parameters %s != real %s" % (q, [(n, int(k), d) for n, k, d, _ in sp], [(n, int(k), d) for n, k, d in real]))
+        if kind in ("instance", "class", "property") and sp and sp[0][3]:
+            problems.append("%s receiver is annotated" % q)
+    return problems
+
+
 def run(ctx):
     H = Harness(ctx)
     rnd = random.Random(ctx["seed"])
@@ -124,6 +156,7 @@ def run(ctx):
     H.section("stub mirrors signatures", "generated modules (module functions over all parameter-kind combinations <= 3 params incl. defaults None / other, coroutine functions, generators, "
               "methods of every kind, classes one and two levels deep, long names forcing wrapping) x traced subsets: parse, placement, decorators, async, parameter lists, receiver",
               "%d modules x 3 traced subsets" % n_mod)
+    generated = []
     try:
         for mi in range(n_mod):
             src, expected = gen_module(rnd, 12, long_names=(mi % 2 == 1))
@@ -132,6 +165,7 @@ def run(ctx):
                 f.write(src)
             importlib.invalidate_caches()
             mod = importlib.import_module(name)
+            generated.append((name, mod, expected))
             quals = sorted(expected)
             for subset_i in range(3):
                 traced = [q for q in quals if rnd.random() < (0.5 + 0.25 * subset_i)] or quals[:1]
@@ -163,38 +197,41 @@ def run(ctx):
                     except Exception as e:
                         H.violation("monkeytype.stubs:build_module_stubs_from_traces", "raises:%s:%s" % (key, type(e).__name__), "stub generation raises", {"traced": qs}, repr(e))
                         continue
-                    got = stub_functions(tree)
-                    problems = []
-                    if sorted(got) != sorted(qs):
-                        problems.append("functions in stub %s != traced %s" % (sorted(got), sorted(qs)))
-                    for q in qs:
-                        nodes = got.get(q, [])
-                        if len(nodes) != 1:
-                            problems.append("%s appears %d times" % (q, len(nodes)))
-                            continue
-                        node = nodes[0]
-                        kind, is_async = expected[q]
-                        decos = sorted(ast.unparse(d) for d in node.decorator_list)
-                        want_deco = {"class": ["classmethod"], "static": ["staticmethod"], "property": ["property"]}.get(kind, [])
-                        if decos != want_deco:
-                            problems.append("%s decorators %s != %s" % (q, decos, want_deco))
-                        if isinstance(node, ast.AsyncFunctionDef) != is_async:
-                            problems.append("%s async mismatch" % q)
-                        obj = mod
-                        for part in q.split("."):
-                            obj = inspect.getattr_static(obj, part)
-                        fn = obj.__func__ if isinstance(obj, (classmethod, staticmethod)) else (obj.fget if isinstance(obj, property) else obj)
-                        real = [(p.name, p.kind, p.default is not P.empty) for p in inspect.signature(fn).parameters.values()]
-                        sp = stub_params(node)
-                        if [(n, k, d) for n, k, d, _ in sp] != real:
-                            problems.append("%s parameters %s != real %s" % (q, [(n, int(k), d) for n, k, d, _ in sp], [(n, int(k), d) for n, k, d in real]))
-                        if kind in ("instance", "class", "property") and sp and sp[0][3]:
-                            problems.append("%s receiver is annotated" % q)
+                    problems = mirror_problems(tree, mod, qs, expected)
                     if problems:
                         H.violation("monkeytype.stubs:build_module_stubs", "mirror:%s:%s" % (key, problems[:2]), "stub does not mirror the module: " + "; ".join(problems[:3]),
                                     {"traced": qs}, {"stub": text[-800:]})
                     else:
                         H.ok(key, sample={"module": name, "traced": qs[:4], "stub_head": text[:160]})
+        H.section("two modules in one run", "traces of two generated modules (which define classes and functions of the same names with different kinds / signatures) passed to one "
+                  "build_module_stubs_from_traces call, in both orders and interleaved: each module's stub mirrors that module alone", "%d module pairs x 3 orders" % (len(generated) // 2))
+        for pi in range(0, len(generated) - 1, 2):
+            per = []
+            for name, mod, expected in generated[pi:pi + 2]:
+                qs = [q for q in sorted(expected) if q.count(".") < 2]
+                trs = []
+                for q in qs:
+                    obj = mod
+                    for part in q.split("."):
+                        obj = inspect.getattr_static(obj, part)
+                    fn = obj.__func__ if isinstance(obj, (classmethod, staticmethod)) else (obj.fget if isinstance(obj, property) else obj)
+                    trs.append(CallTrace(fn, {n: int for n in inspect.signature(fn).parameters}, int))
+                per.append((name, mod, expected, qs, trs))
+            orders = {"ab": per[0][4] + per[1][4], "ba": per[1][4] + per[0][4], "interleaved": [t for pair in itertools.zip_longest(per[0][4], per[1][4]) for t in pair if t is not None]}
+            for oname, traces in orders.items():
+                key = "%s+%s|%s" % (per[0][0], per[1][0], oname)
+                try:
+                    stubs = build_module_stubs_from_traces(traces, 0)
+                    problems = []
+                    for name, mod, expected, qs, _ in per:
+                        problems += ["[%s] %s" % (name, p_) for p_ in mirror_problems(ast.parse(stubs[name].render()), mod, qs, expected)]
+                except Exception as e:      # noqa
+                    problems = ["raises %r" % (e,)]
+                if problems:
+                    H.violation("monkeytype.stubs:build_module_stubs", "two-modules:%s:%s" % (key, problems[:2]), "with two modules in one run a module stub does not mirror its module: " + "; ".join(problems[:3]),
+                                {"modules": [per[0][0], per[1][0]], "order": oname}, problems[:6])
+                else:
+                    H.ok(key, sample={"modules": [per[0][0], per[1][0]], "order": oname})
         # source-annotated functions under every annotation strategy (alone in their module stub, so nothing else contributes imports)
         from monkeytype.stubs import ExistingAnnotationStrategy
         H.section("annotated sources x strategies", "functions with source annotations (class, Optional, generic; defaults None / other) traced alone, stub generated with REPLICATE / OMIT / IGNORE: parses, one def, same parameter list",
